@@ -87,6 +87,9 @@ def run(S):
     rule_rbk_sizes(S)
     rule_end_layer(S)
     rule_key(S)
+    # every visited border applies the walk's own endpoints (shared with C03): "inside the requested interval"
+    from checks.C03 import rule_lft
+    rule_lft(S)
     # the validation primitive itself: a split sends the reader back to the root (shared with C06)
     from checks.C06 import rule_eq
     rule_eq(S)
